@@ -1,4 +1,4 @@
-import Cuke.Model.Attempt
+import Cuke.Model.AttemptShape
 /-!
 # C02 — Each scenario attempt emits the canonical, declaration-ordered event sequence
 Model: `Cuke.runAttempt` (Cuke/Model/Attempt.lean). The theorems hold for every scenario shape,
@@ -302,6 +302,82 @@ theorem runAttempt_retries_const (k : ScenKey) (ret : Option Retries) (sp : Atte
   simp only [attemptEvents, mem_map] at he
   obtain ⟨se, _, rfl⟩ := he
   exact ⟨se, rfl⟩
+
+
+/-! ## The grammar recogniser used as a monitor on real concurrent runs accepts every model attempt -/
+
+theorem effRes_ne_started (sp : AttemptSpec) (idx : Nat) (bg : Bool) (i : Nat) : effRes sp idx bg i ≠ .started := by
+  unfold effRes
+  cases outOf sp bg i <;> simp <;> split <;> simp
+
+theorem stepResultOf_passed (bg : Bool) (i : Nat) : stepResultOf bg i (stepEv bg i .passed) = some true := by
+  simp [stepResultOf]
+
+theorem stepResultOf_skipped (bg : Bool) (i : Nat) : stepResultOf bg i (stepEv bg i .skipped) = some false := by
+  cases bg <;> simp [stepResultOf, stepEv]
+
+theorem stepResultOf_failed (bg : Bool) (i : Nat) (e : StepErr) :
+    stepResultOf bg i (stepEv bg i (.failed e)) = some false := by
+  cases bg <;> simp [stepResultOf, stepEv]
+
+/-- the step part of the canonical sequence (with the deferred failure) is consumed exactly -/
+theorem stepsShape_spec (sp : AttemptSpec) (l : List (Bool × Nat)) (idx : Nat) (rest : List ScenEv) :
+    stepsShape l ((specSteps sp idx l).1 ++ (specSteps sp idx l).2.deferred ++ rest) = some rest := by
+  induction l generalizing idx with
+  | nil => simp [specSteps, stepsShape, Stop.deferred]
+  | cons s tl ih =>
+    obtain ⟨bg, i⟩ := s
+    simp only [specSteps]
+    cases h : effRes sp idx bg i with
+    | started => exact absurd h (effRes_ne_started sp idx bg i)
+    | passed =>
+      simp only [cons_append, stepsShape, if_true, stepResultOf_passed]
+      exact ih (idx + 1)
+    | skipped =>
+      simp [stepsShape, stepResultOf_skipped, Stop.deferred]
+    | failed e =>
+      simp [stepsShape, stepResultOf_failed, Stop.deferred]
+
+theorem tailShape_spec (sp : AttemptSpec) : tailShape (specAfter sp ++ [.finished]) = true := by
+  unfold specAfter
+  cases sp.hasAfter <;> simp [tailShape]
+  cases sp.after <;> simp [tailShape]
+
+/-- **Every attempt of the model is accepted by the grammar monitor** (so a real attempt the monitor
+    rejects is not an attempt of the model). -/
+theorem runAttempt_shape (sp : AttemptSpec) (wid : Nat) :
+    shapeOk sp.nbg sp.nsteps (runAttempt sp wid).events = true := by
+  rw [runAttempt_canonical]
+  have hdecl : declSteps sp.nbg sp.nsteps = stepList sp := rfl
+  have hsteps := stepsShape_spec sp (stepList sp) 0 (specAfter sp ++ [.finished])
+  unfold specEvents specStop
+  cases hb : sp.hasBefore with
+  | false =>
+    simp only [specBefore, hb, Bool.false_eq_true, if_false, append_nil, List.append_assoc, singleton_append, shapeOk]
+    simp only [afterBefore, hdecl]
+    simp only [List.append_assoc] at hsteps ⊢
+    simp [hsteps, tailShape_spec]
+  | true =>
+    simp only [specBefore, hb, if_true]
+    cases hi : sp.init with
+    | ok =>
+      cases hbf : sp.before with
+      | pass =>
+        simp only [List.append_assoc, cons_append, nil_append, shapeOk, afterBefore, hdecl]
+        simp only [List.append_assoc] at hsteps
+        simp [hsteps, tailShape_spec]
+      | panic p =>
+        simp [shapeOk, Stop.deferred, tailShape_spec]
+    | err p => simp [shapeOk, Stop.deferred, tailShape_spec]
+    | panic p => simp [shapeOk, Stop.deferred, tailShape_spec]
+
+/-- the monitor is not vacuous: truncated, re-ordered and over-long sequences are rejected -/
+example : shapeOk 0 2 [.started, .step 0 .started] = false := by decide
+example : shapeOk 0 2 [.started, .step 0 .started, .step 0 .passed, .finished] = false := by decide
+example : shapeOk 0 1 [.started, .step 0 .started, .step 0 (.failed .ambiguous), .step 0 .started, .finished] = false := by decide
+example : shapeOk 0 1 [.started, .hook .after .started, .step 0 .started, .step 0 .passed, .hook .after .passed, .finished] = false := by decide
+example : shapeOk 0 1 [.started, .hook .before .started, .finished] = false := by decide
+example : shapeOk 0 1 [.started, .step 0 .started, .step 0 .passed, .finished, .finished] = false := by decide
 
 /-! ## Non-vacuity: a concrete attempt with background, hooks, a panic in the second own step -/
 def exSpec : AttemptSpec :=
